@@ -33,7 +33,7 @@ def build_key(fd, U, letters, assign, rng, order, spelling):
             continue
         its = list(U[l].items)
         if k == "1":
-            v = its[int(rng.integers(0, len(its)))]
+            v = gen.np_spelled(its[int(rng.integers(0, len(its)))], rng)
         elif k == "S":
             v = subset_dim(fd, U, l, rng, order)
         else:
@@ -41,11 +41,11 @@ def build_key(fd, U, letters, assign, rng, order, spelling):
             pick = rng.choice(len(its), size=n, replace=False).tolist()
             if order == "id":
                 pick = sorted(pick)
-            v = [its[i] for i in pick]
+            v = [gen.np_spelled(its[i], rng, 0.15) for i in pick]
             if rng.random() < 0.3:
                 v = tuple(v)
         if spelling == "letter":
-            kk = l
+            kk = l if rng.random() < 0.85 else np.str_(l)
         elif spelling == "name":
             kk = U[l].name
         else:
